@@ -11,11 +11,11 @@ def _S():
   return dsched.CUR
 
 
-def _pt(op, obj, args=(), enabled=None, wake=None):
+def _pt(op, obj, args=(), enabled=None, wake=None, deadline=None):
   s = dsched.CUR
   if s is None:
     return None
-  return s.point(op, obj, args, enabled, wake)
+  return s.point(op, obj, args, enabled, wake, deadline)
 
 
 def _res(r):
@@ -280,7 +280,16 @@ class SRLock:
 
   def acquire(self, blocking=True, timeout=-1):
     me = self._me()
-    _pt("acquire", self, enabled=lambda: self.owner in (None, me))
+    s = dsched.CUR
+    if not blocking or (timeout is not None and timeout >= 0):
+      # acquire(False) / acquire(timeout=t): gives up (returns False) when the lock is not free now / by the deadline (virtual time)
+      deadline = (s.now if s else 0.0) + (0.0 if not blocking else timeout)
+      _pt("acquire", self, enabled=lambda: self.owner in (None, me) or (dsched.CUR is not None and dsched.CUR.now >= deadline), deadline=deadline)
+      if self.owner not in (None, me):
+        _res(False)
+        return False
+    else:
+      _pt("acquire", self, enabled=lambda: self.owner in (None, me))
     self.owner, self.count = me, self.count + 1
     _res(self.count)
     return True
@@ -307,7 +316,15 @@ class SLock(SRLock):
 
   def acquire(self, blocking=True, timeout=-1):
     me = self._me()
-    _pt("acquire", self, enabled=lambda: self.owner is None)
+    s = dsched.CUR
+    if not blocking or (timeout is not None and timeout >= 0):
+      deadline = (s.now if s else 0.0) + (0.0 if not blocking else timeout)
+      _pt("acquire", self, enabled=lambda: self.owner is None or (dsched.CUR is not None and dsched.CUR.now >= deadline), deadline=deadline)
+      if self.owner is not None:
+        _res(False)
+        return False
+    else:
+      _pt("acquire", self, enabled=lambda: self.owner is None)
     self.owner, self.count = me, 1
     _res(1)
     return True
